@@ -282,7 +282,10 @@ func c12run(env *core.Env, idx int) core.CaseResult {
 				res.Violate(sig("escaping-accepted"), "an archive with an entry that resolves outside the root unpacked without UnarchiveErr", wit)
 			}
 			if logger != nil {
-				for _, p := range logger.paths {
+				logger.mu.Lock()
+				paths := append([]string(nil), logger.paths...)
+				logger.mu.Unlock()
+				for _, p := range paths {
 					if !hackpadfs.ValidPath(p) {
 						// asking the destination for an invalid path is how the tar FS currently learns that the name escapes: the destination refuses it.
 						// What must never happen is that something gets created for it.
